@@ -387,7 +387,9 @@ pub fn run(opts: &Opts) -> Report {
     // same members with different multiplicities, every combination of sorted and not
     for _ in 0..(if opts.thorough() { 60 } else { 12 }) {
         let (x, y, z) = (*rng.pick(&small), *rng.pick(&small), *rng.pick(&small));
-        for (a, b) in [(vec![x, x, y], vec![x, y, y]), (vec![y, x, x], vec![y, y, x]), (vec![x, x, y, z], vec![x, y, z, z]), (vec![x, x], vec![x, x]), (vec![x, y, x], vec![y, y, z])] {
+        for (a, b) in [(vec![x, x, y], vec![x, y, y]), (vec![y, x, x], vec![y, y, x]), (vec![x, x, y, z], vec![x, y, z, z]), (vec![x, x], vec![x, x]), (vec![x, y, x], vec![y, y, z]),
+                       // the same members stored a different number of times
+                       (vec![x, x], vec![x]), (vec![x], vec![x, x, x]), (vec![x, x, y], vec![x, y]), (vec![y, x], vec![x, y, y, x])] {
             for (s1, s2) in [(true, true), (true, false), (false, true), (false, false)] { set_cases.push((a.clone(), s1, b.clone(), s2)); }
         }
     }
